@@ -131,6 +131,40 @@ func Run(r *core.Run) {
 			cases = append(cases, c)
 		}
 	}
+	// the first-round deviations once more against an honest party whose Start() comes last (everything sent
+	// to it arrives before its Start(), which then works through the stored messages itself): blame and
+	// outputs must not depend on that
+	{
+		frt := map[string]map[string]bool{}
+		var lateCases []fault.Case
+		for _, c := range cases {
+			k := fmt.Sprintf("%s/%d", c.Scenario, c.Deviator)
+			if frt[k] == nil {
+				frt[k] = fault.FirstRoundTypes(c.Scenario, c.Deviator)
+			}
+			if !frt[k][c.Dev.MsgType] || c.Dev.Occ > 0 || !(c.Dev.Op == "plus-one" || c.Dev.Op == "removed" || c.Dev.Op == "drop-last") {
+				continue
+			}
+			if !full && c.Dev.Index > 0 {
+				continue // quick: the first element of a list only
+			}
+			victim := 0
+			if c.Deviator == 0 {
+				victim = 1
+			}
+			if strings.Contains(c.Scenario, "resharing") {
+				victim = 2
+				if c.Deviator == 2 {
+					victim = 3
+				}
+			}
+			lc := c
+			lc.LateStart = victim + 1
+			lateCases = append(lateCases, lc)
+		}
+		cases = append(cases, lateCases...)
+		r.Set("late_start_cases", len(lateCases))
+	}
 	// a deviator that shares a polynomial of a higher degree than the threshold, consistently (one more
 	// committed coefficient, every share moved accordingly): covered by the share check / the opening
 	for _, sd := range []struct {
@@ -194,7 +228,7 @@ func Run(r *core.Run) {
 		if c.Dev.MsgType == "<config>" {
 			slot = "config/" + strings.SplitN(c.Dev.Op, ":", 2)[0]
 		}
-		rec := map[string]interface{}{"scenario": c.Scenario, "deviator": c.Deviator, "deviation": c.Dev, "outcome": o}
+		rec := map[string]interface{}{"scenario": c.Scenario, "deviator": c.Deviator, "deviation": c.Dev, "outcome": o, "late_start_node_plus_1": c.LateStart}
 		cls := "undetected-harmless"
 		switch {
 		case o.Crash != "" || len(o.Panics) > 0:
